@@ -314,7 +314,9 @@ def make_tasks(tier):
     T.append(("uniform_HPPM", {"n": 3, "m": 2, "k": 2, "epsilon": 1.0, "rho": 0.5}))
     T.append(("uniform_HPPM", {"n": 4, "m": 2, "k": 2, "epsilon": 1.0, "rho": 0.5}))
     for k, m in (({0: 1, 1: 1, 2: 1, 3: 1}, 2), ({0: 2, 1: 1, 2: 1}, 2), ({0: 2, 1: 2, 2: 1, 3: 1}, 3), ({0: 1, 1: 1, 2: 1}, 3),
-                 ({0: 2, 1: 2, 2: 2}, 2), ({0: 1, 1: 1, 2: 1}, 2)):
+                 ({0: 2, 1: 2, 2: 2}, 2), ({0: 1, 1: 1, 2: 1}, 2),
+                 # sums that need one and two extra stubs (m - remainder = 1, 2), with a zero-degree node
+                 ({0: 0, 1: 1, 2: 1, 3: 1, 4: 1}, 3), ({0: 0, 1: 1, 2: 1}, 3), ({0: 1, 1: 1, 2: 1, 3: 2}, 3)):
         T.append(("uniform_hypergraph_configuration_model", {"k": k, "m": m}))
     T.append(("chung_lu_hypergraph", {"k1": {0: 1, 1: 2, 2: 1}, "k2": {0: 2, 1: 2}}))
     T.append(("chung_lu_hypergraph", {"k1": {0: 3, 1: 3}, "k2": {0: 2, 1: 2, 2: 2}}))
